@@ -375,7 +375,7 @@ theorem float_history_cmp (k : FCfg) (hB : 2 ≤ k.B) (hdub : Float.DubSound k.B
   obtain ⟨cb, fb, db⟩ := float_history k hB hdub hdlb ops hok env henv b hb
   have h1 := float_cmp_of_results k.B hB digitsUb hub a.r b.r a.p b.p da db
   refine ⟨h1, ?_, ?_⟩
-  · rw [h1]; exact (float_eq_iff_cmp_equal k.B hB _ _ ca cb).symm
+  · rw [h1]; exact (fbigEq_iff k.B hB _ _ ca cb).symm
   · have ia : (ofFloatRepr a.r).isInfinite = false := by
       simp only [FRepr.isInfinite, ofFloatRepr, Bool.and_eq_false_iff, bne_eq_false_iff_eq, beq_eq_false_iff_ne]
       by_cases h : a.r.signif = 0
@@ -386,15 +386,18 @@ theorem float_history_cmp (k : FCfg) (hB : 2 ≤ k.B) (hdub : Float.DubSound k.B
       by_cases h : b.r.signif = 0
       · exact Or.inr (fb h)
       · exact Or.inl h
-    unfold fbigEq
-    simp only [ia, ib, Bool.false_and, Bool.false_eq_true, if_false, Bool.not_false, Bool.true_and, if_true,
-      Bool.and_eq_true, beq_iff_eq, ofFloatRepr]
-    constructor
-    · rintro ⟨h1, h2⟩
-      cases ha' : a.r; cases hb' : b.r
-      simp only [ha', hb'] at h1 h2
-      rw [h1, h2]
-    · intro h; rw [h]; exact ⟨rfl, rfl⟩
+    have hfin : ∀ x y : FRepr, x.isInfinite = false → y.isInfinite = false → (fbigEq x y = true ↔ x = y) := by
+      intro x y hx hy
+      unfold fbigEq
+      obtain ⟨xs, xe⟩ := x; obtain ⟨ys, ye⟩ := y
+      simp [hx, hy]
+    rw [hfin _ _ ia ib]
+    have inj : ∀ x y : Dashu.Model.Float.FRepr, ofFloatRepr x = ofFloatRepr y → x = y := by
+      intro x y h
+      obtain ⟨xs, xe⟩ := x; obtain ⟨ys, ye⟩ := y
+      simp only [ofFloatRepr, FRepr.mk.injEq] at h
+      rw [h.1, h.2]
+    exact ⟨inj _ _, fun h => by rw [h]⟩
 
 -- non-vacuity: 1230 − 1 (precision 3) keeps the spare digit: register 2 = 1229·10^0 with 4 digits at precision 3;
 -- register 3 = 1·10^3 (precision 1) sits exactly at the threshold of the precision shortcut; register 4 = 1229/7 =
